@@ -29,7 +29,23 @@ class PatternStream:
         self.size = size
         self.pos = 0
         rng = random.Random(seed)
-        self.block = (b'abcdefgh' * 8192) if compressible else rng.randbytes(65536)
+        if compressible == 'semi':
+            # about 4 bits of entropy per byte: compresses to roughly half, so the *compressed* form of a large object
+            # is still much longer than the decompresser's 512 KiB chunk. A long non-repeating block (1 MiB) so that
+            # zlib's 32 KiB window cannot simply reference the previous block.
+            if seed % 2:
+                self.block = bytes(rng.choices(b'0123456789abcdef', k=1024 * 1024))
+            else:
+                # text-like: words from a vocabulary (many short LZ77 matches, as in real text or JSON)
+                vocab = [bytes(rng.choices(b'abcdefghijklmnopqrstuvwxyz', k=rng.randint(3, 10))) for _ in range(2000)]
+                out = bytearray()
+                while len(out) < 1024 * 1024:
+                    out += rng.choice(vocab) + b' '
+                self.block = bytes(out[: 1024 * 1024])
+        elif compressible:
+            self.block = b'abcdefgh' * 8192
+        else:
+            self.block = rng.randbytes(65536)
 
     def read(self, n=-1):
         if n is None or n < 0:
@@ -233,7 +249,9 @@ def run_chunked(lib, world, case, probes):  # pylint: disable=too-many-locals,to
         cont.init_container(**case['config'])
         other = None
         try:
-            compressible = path.endswith('_z') or path == 'repack'
+            compressible = path.endswith('_z') or path in ('repack', 'validate')
+            if compressible and case['seed'] % 3:
+                compressible = 'semi'
             stream = PatternStream(size, case['seed'] + idx, compressible=compressible)
             key = stream.digest(case['config']['hash_type'])
             stream.seek(0)
@@ -250,6 +268,10 @@ def run_chunked(lib, world, case, probes):  # pylint: disable=too-many-locals,to
             def chunked_read():
                 with cont.get_object_stream(key) as handle:
                     total = 0
+                    # a few tiny reads first (a consumer parsing a header), then ordinary chunked reading
+                    peek = random.Random(case['seed'])
+                    for _ in range(peek.choice([0, 3, 20, 48])):
+                        total += len(handle.read(peek.choice([1, 1, 1, 2, 3, 8])))
                     while True:
                         chunk = handle.read(65536)
                         if not chunk:
